@@ -156,13 +156,14 @@ let handle (toks : string list) =
           (match exp_leafpos ops c (bool_of tracked) (unhex h) with None -> "none" | Some p -> string_of_n p) res)
   | "GETHASH" :: label :: full :: p :: res :: more ->
     let c = ctx () in
-    check "prop" ("GETHASH." ^ label) (chk_gethash ops c (bool_of full) (n_of_string p) (unhex res))
-      (fun () ->
-         let cls = (match more with
-             | [tot] when gethash_d7_class ops c (nat_of_int (int_of_string tot)) (n_of_string p) (unhex res) ->
-               " class=D7 totalrows=" ^ tot ^ " treerows=" ^ string_of_int (int_of_nat c.crows)
-             | _ -> "") in
-         Printf.sprintf "pos=%s spec=%s impl=%s%s" p (hex_of (hash_at ops c.crows c.clay (n_of_string p))) res cls)
+    (match more with
+     | [tot] ->
+       check "prop" ("GETHASH." ^ label) (chk_gethash_dual ops c (bool_of full) (nat_of_int (int_of_string tot)) (n_of_string p) (unhex res))
+         (fun () -> Printf.sprintf "pos=%s totalrows=%s treerows=%d spec(minimal reading)=%s impl=%s" p tot (int_of_nat c.crows)
+             (hex_of (hash_at ops c.crows c.clay (n_of_string p))) res)
+     | _ ->
+       check "prop" ("GETHASH." ^ label) (chk_gethash ops c (bool_of full) (n_of_string p) (unhex res))
+         (fun () -> Printf.sprintf "pos=%s spec=%s impl=%s" p (hex_of (hash_at ops c.crows c.clay (n_of_string p))) res))
   | "PROVE" :: label :: hs :: rest ->
     let c = ctx () in
     let res = (match rest with
@@ -178,18 +179,38 @@ let handle (toks : string list) =
   | "VERIFY" :: label :: kind :: hs :: ts :: pf :: res :: more ->
     let c = ctx () in
     let hs' = hashes_of hs and ts' = ns_of ts and pf' = hashes_of pf in
-    let model = (match kind with
-        | "stump" -> (match mirror_verify ops c hs' ts' pf' with
-            | Ok idx -> "ok " ^ str_ints (List.map int_of_nat idx)
-            | o -> outcome_str o)
-        | _ -> outcome_str (mirror_pollard_verify ops c hs' ts' pf')) in
     let impl = String.concat " " (res :: more) in
-    check "mirror" ("VERIFY." ^ label) (String.equal model impl)
-      (fun () -> Printf.sprintf "hashes=%s targets=%s proof=%s model=%s impl=%s" hs ts pf model impl);
+    (match kind with
+     | "stump" ->
+       let model = (match mirror_verify ops c hs' ts' pf' with
+           | Ok idx -> "ok " ^ str_ints (List.map int_of_nat idx)
+           | o -> outcome_str o) in
+       check "mirror" ("VERIFY." ^ label) (String.equal model impl)
+         (fun () -> Printf.sprintf "hashes=%s targets=%s proof=%s model=%s impl=%s" hs ts pf model impl)
+     | "pollard" ->
+       let model = outcome_str (mirror_pollard_verify ops c hs' ts' pf') in
+       check "mirror" ("VERIFY." ^ label) (String.equal model impl)
+         (fun () -> Printf.sprintf "hashes=%s targets=%s proof=%s model=%s impl=%s" hs ts pf model impl)
+     | k when String.length k > 5 && String.sub k 0 5 = "mapv:" ->
+       let tot = n_of_string (String.sub k 5 (String.length k - 5)) in
+       let model = outcome_str (mirror_map_verify ops c tot hs' ts' pf') in
+       check "mirror" ("VERIFY." ^ label) (String.equal model res)
+         (fun () -> Printf.sprintf "hashes=%s targets=%s proof=%s model=%s impl=%s" hs ts pf model impl)
+     | _ ->
+       check "prop" ("NOPANIC." ^ label) (res = "ok" || res = "err")
+         (fun () -> Printf.sprintf "hashes=%s targets=%s proof=%s impl=%s" hs ts pf impl));
+    let total_of k = (match String.index_opt k ':' with
+        | Some i -> Some (nat_of_int (int_of_string (String.sub k (i + 1) (String.length k - i - 1))))
+        | None -> None) in
     if res = "ok" && hs' <> [] && not (List.exists (String.equal zero32) hs') then
-      check "prop" ("SOUND." ^ label) (claims_true ops c ts' hs')
+      check "prop" ("SOUND." ^ label)
+        (match total_of kind with
+         | Some tot -> claims_true_dual ops c tot ts' hs'
+         | None -> claims_true ops c ts' hs')
         (fun () -> Printf.sprintf "accepted-false-claim hashes=%s targets=%s proof=%s" hs ts pf)
   (* EXPECTOK tag : the previous honest call must have succeeded: harness states result *)
+  | ["NOPANIC"; label; res] ->
+    check "prop" ("NOPANIC." ^ label) (res = "ok" || res = "err") (fun () -> "call ended with " ^ res)
   | ["HONEST"; label; res] ->
     check "prop" ("HONEST." ^ label) (res = "ok") (fun () -> "honest input rejected: " ^ res)
   | ["ROOTIDX"; label; hs; idxs] ->
